@@ -153,11 +153,12 @@ Proof. intros ch lu. split; [vm_compute; reflexivity|]. split; [vm_compute; refl
    square root returns, P L U differs from A (witness of flag plu_diagonal_negative_nan: Diagonal([-4])) *)
 From Coq Require Import QArith Qcanon.
 Definition m4 : qi := qic (-4)%Z 1%positive 0%Z 1%positive.
-Lemma plu_diag_refuted : forall lu_o (sqrt_o : qi -> qi), snd (sqrt_o m4) = Q2Qc 0 ->
+Definition real_valued (x : qi) : Prop := snd x = Q2Qc 0.
+Lemma plu_diag_refuted : forall lu_o (sqrt_o : qi -> qi), real_valued (sqrt_o m4) ->
   ~ plugood (plu lu_o sqrt_o true (Diag 1 (fun _ => m4))) (Diag 1 (fun _ => m4)).
 Proof. intros lu sq Hre H. cbn [plu] in H. unfold plugood in H. destruct H as (_ & _ & _ & _ & _ & _ & F).
   specialize (F 0%nat 0%nat (le_n 1) (le_n 1)). cbn [dto_op den sqrt_diag shape fst] in F. unfold mmul in F. cbn [sum] in F.
-  unfold eye, delta in F. cbn [Nat.eqb] in F. destruct (sq m4) as [a b]. cbn [snd] in Hre. subst b.
+  unfold eye, delta in F. cbn [Nat.eqb] in F. destruct (sq m4) as [a b]. unfold real_valued in Hre. cbn [snd] in Hre. subst b.
   apply (f_equal fst) in F. cbn [r0 r1 radd rmul QIRing qiadd qimul qi0 qi1 fst snd m4 qic] in F.
   assert (E : (a * a = qc (-4) 1)%Qc).
   { transitivity (qc (-4) 1 * 1 - qc 0 1 * Q2Qc 0)%Qc; [rewrite <- F; change (Q2Qc 0) with 0%Qc; ring|]. change (qc 0 1) with 0%Qc. change (Q2Qc 0) with 0%Qc. ring. }
